@@ -826,6 +826,16 @@ def run(case: dict[str, Any]) -> dict[str, Any]:
         all_names = sorted({d for sn in snaps for d in sn["dbs"]})
         shutil.rmtree(D, ignore_errors=True)
         probes["own_view_checks"] = len(snaps)
+        # side-table rows are committed state too: a row may only name a table that is, or once was, committed
+        # (rows of dropped tables are the known stale-metadata finding of C09, rows of a table that never got committed are a leak)
+        ever: set[str] = set()
+        for j, sn in enumerate(snaps):
+            ever.update(sn.get("tables") or {})
+            leaked = sorted({f"{r[0]}.{r[1]}.{r[2]}" for k2, rows in (sn.get("ext") or {}).items() for r in rows if len(r) > 2} - ever)
+            if leaked and not violations:
+                op = case["ops"][j]
+                violations.append(v_(f"uncommitted-metadata-committed/{op_kind(op)}", "fakesnow's side tables hold committed rows for a table that was never committed (they would survive a kill or ROLLBACK)",
+                                     {"after_op": j, "op": {k: op.get(k) for k in ("s", "k", "sql")}, "tables": leaked}))
         for r in recs:
             if r["ev"] == "own_diff":
                 op = case["ops"][r["i"]]
